@@ -41,11 +41,15 @@ FORMS = {
     "plain_dyn_fn": "Box<dyn Fn(u8)>",
     "plain_path": "::core::primitive::u8",
     "plain_generic_path": "::core::option::Option<u8>",
+    # trait objects with lifetime bounds (the lifetime bound is only inspected when no earlier bound mentions a parameter)
+    "plain_dyn_lt": "Box<dyn Send + 'static>",
+    "dyn_lt_first": "Box<dyn 'static + Tr2<{T}>>",
+    "dyn_lt_last": "Box<dyn Tr2<{T}> + 'static>",
 }
 CORE_FORMS = ("T", "plain", "ref", "vec")
-NONGENERIC = ("plain", "plain_fn", "plain_dyn_fn", "plain_path", "plain_generic_path")
+NONGENERIC = ("plain", "plain_fn", "plain_dyn_fn", "plain_path", "plain_generic_path", "plain_dyn_lt")
 NEW_FORMS = ("slice_ref", "paren", "fn_ret", "dyn_fn", "dyn_fn_ret", "dyn_assoc", "fn_mixed", "dyn_two", "dyn_two_rev", "dyn_fn_mixed", "tuple_mixed",
-             "plain_fn", "plain_dyn_fn", "plain_path", "plain_generic_path")
+             "plain_fn", "plain_dyn_fn", "plain_path", "plain_generic_path", "plain_dyn_lt", "dyn_lt_first", "dyn_lt_last")
 TRAITS = {"Display": "", "Debug": "?", "LowerHex": "x", "Pointer": "p"}
 ATTR = {"Display": "display", "Debug": "debug", "LowerHex": "lower_hex"}
 STYLES = ["none", "named", "positional", "alias", "expr_bound"]
@@ -218,7 +222,7 @@ def holds(form, tr, x_fmt):
         return tr in ("Debug", "Pointer")
     if form == "phantom":
         return tr == "Debug"
-    if form in ("dyn", "dyn_fn", "dyn_fn_ret", "dyn_assoc", "dyn_two", "dyn_two_rev", "dyn_fn_mixed", "plain_dyn_fn"):
+    if form in ("dyn", "dyn_fn", "dyn_fn_ret", "dyn_assoc", "dyn_two", "dyn_two_rev", "dyn_fn_mixed", "plain_dyn_fn", "plain_dyn_lt", "dyn_lt_first", "dyn_lt_last"):
         return False
     if form in ("plain_path",):
         return True
